@@ -667,13 +667,77 @@ func dDyn(p *Prog) *dDynIndex {
 func dFuncOf(v ssa.Value) *ssa.Function {
 	switch x := unwrap(v).(type) {
 	case *ssa.Function:
-		return x
+		return dUnwrapThunk(x)
 	case *ssa.MakeClosure:
 		if f, ok := x.Fn.(*ssa.Function); ok && len(x.Bindings) == 0 {
-			return f
+			return dUnwrapThunk(f)
 		}
 	}
 	return nil
+}
+
+// dUnwrapThunk sees through a synthetic wrapper (method expression thunk, promoted-method wrapper)
+// that only forwards its parameters, in order, to one statically known function and returns its
+// results: the wrapper and the target have the same parameter positions.
+func dUnwrapThunk(f *ssa.Function) *ssa.Function {
+	for depth := 0; depth < 3 && f != nil && f.Synthetic != "" && f.Parent() == nil && len(f.Blocks) > 0; depth++ {
+		var target *ssa.Function
+		n := 0
+		for _, ci := range callsIn(f) {
+			n++
+			c := ci.Common()
+			callee := staticCallee(c)
+			if callee == nil || len(c.Args) != len(f.Params) {
+				return f
+			}
+			for i, a := range c.Args {
+				if unwrap(a) != ssa.Value(f.Params[i]) {
+					return f
+				}
+			}
+			target = callee
+		}
+		if n != 1 || target == nil {
+			return f
+		}
+		f = target
+	}
+	return f
+}
+
+// dTableKeys returns the constant string keys of a package-level map that is a constant table in
+// the sense of dTableElements (assigned once by the package initialiser, never written elsewhere).
+func dTableKeys(p *Prog, g *ssa.Global) ([]string, bool) {
+	if _, ok := dTableElements(p, g); !ok || g.Pkg == nil {
+		return nil, false
+	}
+	initFn := g.Pkg.Func("init")
+	if initFn == nil {
+		return nil, false
+	}
+	var keys []string
+	for _, b := range initFn.Blocks {
+		for _, in := range b.Instrs {
+			st, ok := in.(*ssa.Store)
+			if !ok || st.Addr != ssa.Value(g) {
+				continue
+			}
+			mm, ok := unwrap(st.Val).(*ssa.MakeMap)
+			if !ok {
+				return nil, false
+			}
+			for _, rf := range refs(mm) {
+				if mu, ok := rf.(*ssa.MapUpdate); ok {
+					k, isC := constString(mu.Key)
+					if !isC {
+						return nil, false
+					}
+					keys = append(keys, k)
+				}
+			}
+		}
+	}
+	return keys, len(keys) > 0
 }
 
 // dTableElements returns the functions held by a package-level slice/array/map of functions that
